@@ -119,6 +119,8 @@ SPECIAL = [
     # functional groups, multiple bonds, heteroatoms, halogens, out of vocabulary
     'CC', 'CCC', 'C=C', 'C#C', 'C=C=C', 'C=CC=C', 'CC#N', 'CO', 'C=O', 'CC(=O)O', 'CC(=O)OC', 'COC', 'CCN', 'CS', 'CSC', 'CP',
     'CCl', 'C[Si](C)(C)C', 'FC(F)F', 'OO', 'NN', 'N#N', 'O=C=O', 'CC(C)(C)C', 'CC(C)C(C)C', 'OCC(O)CO', 'O=CC=O', 'CC(=O)C',
+    # boundaries of the element classes: Z = 0 (dummy), 2, 18, 19, 20, 21
+    '*C', '[He]', '[Ar]', '[K]', 'O[K]', '[Ca]', 'C[Ca]C', '[Sc]', '[Li]C', '[Na+]', '[Br-]', '[F-]',
     'C=CC#C', 'CC=C', 'OS(=O)(=O)O', 'OP(O)(O)=O', 'CC(N)C(=O)O', 'C(=O)N', 'CBr', 'CI', 'CB(O)O', 'O', 'N', 'C', 'S', 'P',
 ]
 
